@@ -9,6 +9,7 @@ import enc_gen  # noqa: E402
 import dec_gen  # noqa: E402
 import obj_gen  # noqa: E402
 import st_gen  # noqa: E402
+import val_gen  # noqa: E402
 import tlcdump  # noqa: E402
 import hashlib  # noqa: E402
 import json  # noqa: E402
@@ -149,6 +150,23 @@ ST_MC = {'kind': 'mc', 'tree': True, 'name': 'status', 'module': 'MC_Status', 'c
          'cfg': {'quick': 'MC_Status_quick.cfg', 'thorough': 'MC_Status_thorough.cfg'}, 'extra': ST_PROBE,
          'invariants': ['InvC16']}
 ST_RANDOM = {'kind': 'gen', 'name': 'randomstatus', 'gen': st_random, 'comp': 'st', 'trace': 'TraceStatus'}
+
+
+# ------------------------------------------------------------------ values
+def val_random(tier, seed, path):
+    n = 150 if tier == 'quick' else 3000
+    eps = list(val_gen.gen(seed + 31, n, 'p', 'packet')) + list(val_gen.gen(seed + 32, n // 3, 'y', 'payload')) + \
+        list(val_gen.gen(seed + 33, n // 3, 't', 'tecmp'))
+    return val_gen.write(path, eps)
+
+
+def nt_val(c):
+    return any(o.get('op') in ('assign', 'massign', 'copy', 'move') for o in c.get('ops', []))
+
+
+VAL_MC = {'kind': 'mc', 'name': 'values', 'module': 'MC_Values', 'comp': 'val', 'trace': 'TraceVal',
+          'cfg': {'quick': 'MC_Values_thorough.cfg', 'thorough': 'MC_Values_thorough.cfg'}, 'invariants': ['TypeOK']}
+VAL_RANDOM = {'kind': 'gen', 'name': 'randomvalues', 'gen': val_random, 'comp': 'val', 'trace': 'TraceVal'}
 
 
 # ------------------------------------------------------------------ decoder
@@ -298,4 +316,13 @@ PROPS = {
                     'entries as a map = abstract map, no duplicate ids, lookups = position in the observed order or the count. '
                     'Non-trivial = distinct episodes containing updates and removals.',
             'assumptions': COMMON_ASSUMPTIONS},
+    'C14': {'level': 'model_checking', 'stages': [VAL_MC, VAL_RANDOM], 'nontrivial_case': nt_val,
+            'rule': 'MC_Values: the complete state graph of a 3-slot object store over 8 values (empty packet, zero-length '
+                    'payloads of two types, data packet, one payload byte changed, one header field changed, two status packets) '
+                    'under make / copy-construct / move-construct / copy-assign (incl. self and equal-looking targets) / '
+                    'move-assign / mutate / equality; one path per transition replayed on real Packet objects with full snapshots '
+                    'of every slot after every operation; plus seeded random sequences on Packet, Payload and TECMP::Payload '
+                    'stores with all payload kinds. Monitor: store semantics, equality reflexive / symmetric / negation of != / '
+                    'field-by-field for non-empty payloads. Non-trivial = distinct episodes containing a copy, move or assignment.',
+            'assumptions': COMMON_ASSUMPTIONS + ['moved-from objects are unspecified and only used as assignment targets']},
 }
